@@ -629,6 +629,14 @@ class Folder:
             if isinstance(i, int):
                 r = v.data[i]
                 return Arr(r) if isinstance(r, list) else r
+            if isinstance(i, tuple) and i and all(isinstance(x, int) and not isinstance(x, bool) for x in i):
+                r = v.data
+                try:
+                    for x in i:
+                        r = r[x]
+                except (IndexError, TypeError):
+                    raise Raised("IndexError")
+                return Arr(r) if isinstance(r, list) else r
             raise Refuse("array index")
         if isinstance(v, (str, list, tuple)):
             if not isinstance(i, int) or isinstance(i, bool):
